@@ -77,6 +77,18 @@ def export_nodes(roots, sample, with_values=True):
             index[k] = len(nodes)
             nodes.append(["F"])
             return index[k]
+        if isinstance(obj, MultiplexerDistribution) and not needsSampling(obj.index):
+            # index already known (always the case at run time, where the selector was drawn on its own):
+            # the codec writes nothing for it and then the chosen option only
+            try:
+                choice = obj.options[obj.index]
+            except Exception:
+                unsupported.append("mux-const-index-out-of-range")
+                choice = None
+            deps_ = [visit(choice)] if choice is not None else []
+            index[k] = len(nodes)
+            nodes.append(["D", deps_])
+            return index[k]
         if isinstance(obj, MultiplexerDistribution):
             ix = visit(obj.index)
             opts = [visit(o) for o in obj.options]
@@ -95,9 +107,8 @@ def export_nodes(roots, sample, with_values=True):
             if with_values and obj in sample:
                 pvals[index[k]] = enc_val(ty, sample[obj])
             return index[k]
-        if type(obj).serializeValue not in (Samplable.serializeValue, Distribution.serializeValue) and not hasattr(type(obj), "_verif_seed_codec"):
-            if not mutation_seed_codec(obj):
-                unsupported.append("override:" + type(obj).__name__)
+        if type(obj).serializeValue not in (Samplable.serializeValue, Distribution.serializeValue) and not mutation_seed_codec(obj):
+            unsupported.append("override:" + type(obj).__name__)
         deps = [visit(d) for d in obj._conditioned._dependencies]
         extra = mutation_seed_node(obj, sample, nodes, pvals) if with_values else None
         if extra is not None:
@@ -122,10 +133,11 @@ def mutation_seed_codec(obj):
 def mutation_seed_node(obj, sample, nodes, pvals):
     if not mutation_seed_codec(obj):
         return None
-    if sample[obj.mutationScale] == 0:
+    if sample[obj._conditioned.mutationScale] == 0:
         return None
-    seed = getattr(sample[obj], "_mutationSeed", None)
-    if seed is None:
+    try:
+        seed = object.__getattribute__(sample[obj], "_mutationSeed")
+    except AttributeError:
         return None
     nodes.append(["P", "int"])
     pvals[len(nodes) - 1] = ["I", str(int(seed))]
@@ -296,7 +308,9 @@ class LogSimulation(DummySimulation):
             elif isinstance(v, (int, float)):
                 vals[pt["prop"]] = v + (int(d[0]) if isinstance(v, int) else d[0])
             elif isinstance(v, str):
-                vals[pt["prop"]] = v + "x"
+                vals[pt["prop"]] = (v + "x") if d[0] else v
+            elif isinstance(v, Orientation) and d[0]:
+                vals[pt["prop"]] = Orientation.fromEuler(0.25, 0.125, 0)
         dyn = obj._simulatorProvidedProperties
         ps, unsup = [], []
         for prop, ty in dyn.items():
@@ -383,7 +397,7 @@ def do_replay(scenario, scene, job):
     out["ndraws"] = sum(1 for i in r1["log"] if events[i]["k"] == "D")
     # (1) replay through the public API (scene decoded from the bytes as well), a different random stream
     random.seed(12345)
-    oc, simA = outcome_of(lambda: scenario.simulationFromBytes(data, DummySimulator(drift=1.0), maxSteps=steps, maxIterations=1, enableDivergenceCheck=wr1))
+    oc, simA = outcome_of(lambda: scenario.simulationFromBytes(data, LogSimulator(drift=1.0), maxSteps=steps, maxIterations=1, enableDivergenceCheck=wr1))
     out["outcome"] = oc
     out["equal"] = oc == "ok" and simA is not None and sim_canon(simA) == c1
     if oc == "ok" and simA is not None and not out["equal"]:
